@@ -58,6 +58,7 @@ package file
 // that Write reported no error (os.File.Write: a nil error means all of b was written).
 
 //@ func (*Plugin).write
+//@   option check-nil yes
 //@   option allow-exit yes
 //@   ghost nw int = 0
 //@   ghost werr bool = false
@@ -130,6 +131,7 @@ package file
 // same name); nothing else of the plugin is touched (p.file in particular).
 
 //@ func (*Plugin).rename
+//@   option check-nil yes
 //@   option allow-exit yes
 //@   modifies p.idx
 //@   ghost nrn int = 0
